@@ -53,6 +53,7 @@ from spyne.util import six
 from spyne.const.xml import DEFAULT_NS
 from spyne.const.http import HTTP_405, HTTP_500
 from spyne.error import RequestNotAllowed
+from spyne.error import ValidationError
 from spyne.model.fault import Fault
 from spyne.model.primitive import Date, Time, DateTime
 from spyne.protocol.xml import XmlDocument
@@ -113,7 +114,9 @@ def _parse_xml_string(xml_string, parser, charset=None):
             logger.debug('ValueError: Deserializing from unicode strings with '
                          'encoding declaration is not supported by lxml.')
             try:
-                root, xmlids = etree.XMLID(string.encode(charset), parser)
+                # (no charset when the document comes out of a multipart body)
+                root, xmlids = etree.XMLID(string.encode(charset or 'utf-8'),
+                                                                         parser)
             except (UnicodeError, LookupError) as e:
                 raise Fault('Client.XMLSyntaxError', str(e))
 
@@ -214,7 +217,17 @@ class Soap11(XmlDocument):
                         "header properly set.")
 
             content_type = cgi.parse_header(content_type)
-            ctx.in_string = collapse_swa(ctx, content_type, self.ns_soap_env)
+            try:
+                ctx.in_string = collapse_swa(ctx, content_type,
+                                                               self.ns_soap_env)
+            except Fault:
+                raise
+            except Exception as e:
+                # whatever the mime and xml machinery has to say about a broken
+                # multipart/related body is the client's problem
+                logger.exception(e)
+                raise ValidationError(None,
+                       "Malformed multipart/related request: " + type(e).__name__)
 
         ctx.in_document = _parse_xml_string(ctx.in_string,
                                             XMLParser(**self.parser_kwargs),
